@@ -90,7 +90,7 @@ def lemma2(report, cands):
         else:
             ctxs.append((Ctx("ni:" + c.name, c.prefix, c.suffix, domain=c.domain), max(1, n - 2) if q else n - 1))
     cls = {"?V": ["x", "1"], "?O": ["+", "*", ","]}
-    for i, pat in enumerate(["x = ( T ) ?V ?O ( ?V ) ?O sizeof ( T ) ?O ( ?V ) ;", "x = sizeof ( T ) ?O ( ?V ) ?O ( T ) { ?V } ?O ( ?V ) ;"]):
+    for i, pat in enumerate(["x = ( T ) ?V ?O ( ?V ) ?O sizeof ( T ) ?O ( ?V ) ;", "x = sizeof ( T ) ?O ( ?V ) ?O ( T ) { ?V } ?O ( ?V ) ;", "x = ( T ) ?V ?O ( int ) ?V ?O ( char ) ( T ) ?V ;", "x = sizeof ( T ) ?O sizeof ( int ) ?O ( T ) { ?V } . x ?O ( int ) { ?V } ;"]):
         ctxs.append((PatCtx(f"ni:parens{i}:{pat}", c05.FN, pat, ["}"], cls), 0))
 
     def path_fn(Lex, tpl):
